@@ -191,8 +191,19 @@ class RunA:
     def oracle(self, key):
         if key[:3] in self.props:
             self.oracle_evals[key] = self.oracle_evals.get(key, 0) + 1
+        elif key == 'C06.delivery' and 'C16' in self.props:
+            self.oracle_evals['C16.stream_delivery'] = \
+                self.oracle_evals.get('C16.stream_delivery', 0) + 1
 
     def fail(self, prop, oracle, cls, detail, buf=None):
+        if prop == 'C06' and 'C16' in self.props and \
+                'C06' not in self.props and oracle in ('delivery', 'history'):
+            # World B's checks borrow the capacity population: a streamed
+            # decode that differs from the pristine decode of the same bytes
+            # is "a call that does not give the result it gives in a fresh
+            # interpreter"
+            prop, cls = 'C16', ['history-dependent', 'unmarshal'] + \
+                list(cls[1:2])
         if prop in self.props and self.violation is None:
             self.violation = Violation(prop, oracle, cls, detail, buf)
             self.ev('VIOLATION', prop, oracle, cls)
@@ -1110,7 +1121,7 @@ class RunA:
         cts = self.trace['conns']
         ex = self.trace['explore']
         only = self.trace.get('explore_only')
-        helper = PristineRefs() if 'C06' in self.props else None
+        helper = PristineRefs() if self.props & {'C06', 'C16'} else None
         conns = []
         lib.LOCK_YIELD[0] = lib.single_thread_yield
         try:
@@ -1156,6 +1167,7 @@ class RunA:
                                            '%s@%d' % hit)
                 for c in conns:
                     if not c.done:
+                        self.reencode(c)
                         self.step_conn(c, 0)
             watch.scan()
             self.ev('watch', watch.summary())
@@ -1187,6 +1199,41 @@ class RunA:
             res['trace_patch'] = self.trace_patch
         return res
 
+    def reencode(self, c):
+        """C12 / C16 on the producer side: the frame about to be delivered
+        is built and marshalled AGAIN (constructor + frame.marshal, here and
+        now - possibly next to another thread doing the same) and must give
+        the bytes it gave when the stream was prepared."""
+        if not (self.props & {'C12', 'C16'}):
+            return
+        inc = c.inc
+        k = inc.ptr
+        if k >= len(c.frames) or len(inc.buf):
+            return          # only at frame boundaries
+        fi = c.frames[k]
+        if fi.kind == 'raw' or fi.damaged and fi.encodable:
+            return
+        prop = 'C16' if 'C16' in self.props else 'C12'
+        self.oracle(prop + '.marshal_again')
+        try:
+            data = bytes(gen.encode_frame(fi.desc))
+            out = None
+        except Exception as e:
+            data, out = None, canon_exc(e)
+        self.n_calls += 1
+        self.ev('enc', c.idx, k, out[1] if out else len(data))
+        if fi.encodable and data != fi.data or \
+                not fi.encodable and data is not None:
+            self.fail(prop, 'marshal_again',
+                      ['history-dependent' if prop == 'C16' else
+                       'nondeterministic', 'marshal'],
+                      'frame %d of connection %d (%s), built and marshalled '
+                      'again, gives %s; when the stream was prepared it gave '
+                      '%s' % (k, c.idx, fi.kind,
+                              out[1:] if out else data.hex()[:200],
+                              fi.data.hex()[:200] if fi.encodable
+                              else 'an exception'), fi.data)
+
     def run_variant(self, conns, watch, t, k, w, names, rv=None):
         """One interleaving of a window: every connection is a real thread
         executing its next w operations; thread t starts and is parked at
@@ -1204,6 +1251,7 @@ class RunA:
             for _ in range(w):
                 if c.done:
                     break
+                self.reencode(c)
                 if not self.step_conn(c, 0):
                     break
 
@@ -1294,6 +1342,7 @@ class RunA:
                             while any(not c.done for c in conns):
                                 for c in conns:
                                     if not c.done:
+                                        self.reencode(c)
                                         self.step_conn(c, 0)
                             if self.trace.get('tail') and \
                                     'C08' in self.props:
